@@ -1046,6 +1046,11 @@ def gen_c16(ctx, n, fol=True):
             i = rng.randrange(len(kb))
             pre.append(rng.choice([[12, i, gen_fol.rnd_gnd(rng, kb[i][3], 4)], [9], [16]]))
         mid = gen_fol.gen_fops(rng, kb, roots, rng.choice([0, 2, 4]), 3, data_ops=0.0) if rng.random() < 0.5 else []
+        if rng.random() < 0.6:
+            # state queries about groundings nobody asserted, between run 1 and the reset: they must leave no trace in run 2
+            for _k in range(rng.choice([1, 2, 3])):
+                i = rng.randrange(len(kb))
+                mid.append([12, i, gen_fol.rnd_gnd(rng, kb[i][3], 4)])
         ops = pre + [[5, -1, 30]]
         k1 = len(ops) - 1
         ops += [[9]] + mid + ([[16]] if rng.random() < 0.4 else []) + [[7], [5, -1, 30]]
